@@ -14,16 +14,16 @@ def make_pv(case, membrane_spec=None):
     return build.Pervaporation(membrane=mem, mixture=mix), mix
 
 
-def _preused(comp):
+def _preused(comp, case=None):
     from .procs import preuse
 
-    return preuse(comp)
+    return preuse(comp, build.mixture(case["mixture"]) if case is not None else None)
 
 
 def solver_kwargs(case, explicit=True):
     kw = dict(
         feed_temperature=case["T"],
-        composition=_preused(build.composition(case["x"], case["basis"])),
+        composition=_preused(build.composition(case["x"], case["basis"]), case),
         precision=case["precision"],
         permeate_temperature=case["perm"].get("T"),
         permeate_pressure=case["perm"].get("p"),
